@@ -451,3 +451,126 @@ Proof.
         do 3 eexists. eapply sl_bad; eassumption.
       * do 3 eexists. eapply sl_bad_last; eassumption.
 Qed.
+
+(** * Without a sink: the first bad segment's error is returned *)
+
+Lemma in_core_noprobe a : in_core a = true -> noprobe a = true.
+Proof.
+  induction a; cbn [in_core noprobe]; intros H; try discriminate H; try reflexivity;
+    repeat match goal with Hc : _ && _ = true |- _ => apply andb_prop in Hc; destruct Hc end;
+    repeat (apply andb_true_intro; split); auto.
+Qed.
+
+Section ListSegNoSink.
+  Variable m : metrics.
+  Hypothesis Htab : 1 <= tabw m.
+  Variable t : text.
+  Hypothesis Ht : wf_text t.
+  Local Notation Inv := (Inv m t).
+
+  Variable a : G.
+  Variable sep : kind.
+  Variable ab : list kind.
+  Hypothesis Ha : in_core a = true.
+  Variable f0 : nat.
+  Hypothesis Hd : gdepth a < f0.
+  Variable c : ctx.
+  Hypothesis Hnosink : has_sink c = false.
+  Variable dflt : val.
+  Variable hi : option nat.
+
+  Local Notation soa := (sep :: ab).
+  Local Notation rr := (list_rref sep ab).
+  Local Notation inner := (GRecoverWith dflt rr (GUpTo a soa)).
+  Local Notation item := (GStabilize inner).
+  Local Notation probe := (GStabilize (GMaybe (GUpTo a soa))).
+  Local Notation sepp := (GRecoverWith VUnit rr (GDiscard (GOne sep))).
+  Local Notation f := (S (S (S f0))).
+
+  (** good segments up to the first bad one; the upper bound is not reached before it *)
+  Inductive first_bad : nat -> list entry -> Prop :=
+  | fb_here cnt x r : in_kinds ab (e_tok x) = false -> bad a sep ab (x :: r) -> first_bad cnt (x :: r)
+  | fb_later cnt x r v y s1 :
+      in_kinds ab (e_tok x) = false -> peg a (x :: r) = Some (POk v (y :: s1)) ->
+      ge_opt (S cnt) hi = false -> in_kinds ab (e_tok y) = false -> tok_eqb (tk0 sep) (e_tok y) = true ->
+      first_bad (S cnt) s1 -> first_bad cnt (x :: r).
+
+  (** the item wrapper on a bad segment, no sink: the error comes back, nothing else happens *)
+  Lemma item_bad_nosink lx ys st : Inv lx ys -> c_rec lx = None -> bad a sep ab (kept (c_filter lx) ys) ->
+    exists e, run f item lx c st = (RErr e, st) /\ run (S f0) (GUpTo a soa) lx c st = (RErr e, st).
+  Proof using Htab Ht Ha Hd Hnosink.
+    intros HI Hl Hbad. destruct (upto_bad m Htab t Ht a sep ab Ha f0 Hd c lx ys st HI Hbad) as (e & Eu).
+    exists e. split; [|exact Eu].
+    change (run f item lx c st) with (stab_loop (run (S (S f0))) (S (S f0)) 0 inner c lx (run (S (S f0)) inner lx c st)).
+    assert (Ei : run (S (S f0)) inner lx c st = (RErr e, st)).
+    { cbn [run]. cbn [run] in Eu. rewrite Eu. unfold send_error. rewrite Hnosink. reflexivity. }
+    rewrite Ei. cbn [stab_loop]. rewrite Hl. reflexivity.
+  Qed.
+
+  Lemma list_loop_first_bad (k : list val -> clexer -> store -> R) :
+    forall cnt s, first_bad cnt s ->
+    forall n lx ys st vals, Inv lx ys -> c_rec lx = None -> kept (c_filter lx) ys = s -> length vals = cnt ->
+    2 * length s + 2 < n ->
+    exists e, list_loop (run f) n hi ab dflt item probe sepp c vals lx st k = (RErr e, st).
+  Proof using Htab Ht Ha Hd Hnosink.
+    intros cnt s Hfb. induction Hfb as [cnt x r Hnab Hbad|cnt x r v y s1 Hnab Hp Hge Hyab Hysep Hfb IH];
+      intros n lx ys st vals HI Hl Hk Hc Hn; (destruct n as [|n]; [lia|]); cbn [list_loop].
+    - destruct (peek_cons m Htab t Ht lx ys x r HI Hk) as (lx0 & ys0 & E & HI0 & Hf0 & Hr0 & Hk0). rewrite E. cbn [lift]. rewrite Hnab.
+      assert (Hbad0 : bad a sep ab (kept (c_filter lx0) ys0)) by (rewrite Hf0, Hk0; exact Hbad).
+      destruct (item_bad_nosink lx0 ys0 st HI0 ltac:(congruence) Hbad0) as (e & Ei & _). rewrite Ei.
+      (* the sink-less run never returns the recovery error *)
+      pose proof (no_sink_good f item (in_core_noprobe a Ha) lx0 c st Hnosink ltac:(congruence)) as Hg.
+      rewrite Ei in Hg. destruct Hg as [Hne _]. exists e. destruct e; try reflexivity. contradiction Hne. reflexivity.
+    - destruct (peek_cons m Htab t Ht lx ys x r HI Hk) as (lx0 & ys0 & E & HI0 & Hf0 & Hr0 & Hk0). rewrite E. cbn [lift]. rewrite Hnab.
+      assert (Hp0 : peg a (kept (c_filter lx0) ys0) = Some (POk v (y :: s1))) by (rewrite Hf0, Hk0; exact Hp).
+      destruct (item_ok m Htab t Ht a sep ab Ha f0 Hd c dflt lx0 ys0 st v (y :: s1) HI0 ltac:(congruence) Hp0 (in_soa_sep sep ab y Hysep))
+        as (lx1 & ys1 & E1 & HI1 & Hf1 & Hr1 & Hk1).
+      rewrite E1. cbn zeta. rewrite app_length. cbn [length]. rewrite Hc. replace (cnt + 1) with (S cnt) by lia. rewrite Hge.
+      assert (Hk1' : kept (c_filter lx1) ys1 = y :: s1) by (rewrite Hf1; exact Hk1).
+      destruct (peek_cons m Htab t Ht lx1 ys1 y s1 HI1 Hk1') as (lx2 & ys2 & E2 & HI2 & Hf2 & Hr2 & Hk2). rewrite E2. cbn [lift]. rewrite Hyab.
+      pose proof Hk2 as Hk2'. rewrite <- Hf2 in Hk2'.
+      rewrite (not_at_end m Htab t Ht lx2 ys2 y s1 HI2 Hk2').
+      destruct (sepp_ok m Htab t Ht sep ab f0 c lx2 ys2 st y s1 HI2 Hk2' Hysep) as (lx3 & ys3 & E3 & HI3 & Hf3 & Hr3 & Hk3). rewrite E3.
+      destruct (c_start_sublex_spec m Htab t Ht lx3 ys3 HI3) as (lx4 & ys4 & E4 & HI4 & Hk4 & Hf4 & Hr4). rewrite E4. cbn [lift].
+      assert (Hk4' : kept (c_filter lx4) ys4 = s1) by (rewrite Hk4, Hf3; exact Hk3).
+      apply (IH n lx4 ys4 st (vals ++ [v]) HI4 ltac:(congruence) Hk4').
+      + rewrite app_length. cbn. lia.
+      + pose proof (RunFuel.peg_len a (x :: r) v (y :: s1) Hp) as Hlen. cbn [length] in *. lia.
+  Qed.
+End ListSegNoSink.
+
+Theorem list_bounded_default_first_bad m (Htab : 1 <= tabw m) t (Ht : wf_text t) a sep ab lo hi f0 F c lx ys st :
+  F = S (S (S f0)) -> hi <> Some 0 -> (forall h, hi = Some h -> lo <= h) ->
+  in_core a = true -> gdepth a < f0 -> has_sink c = false -> Inv m t lx ys -> c_rec lx = None ->
+  first_bad a sep ab hi 0 (kept (c_filter lx) ys) -> 2 * length (kept (c_filter lx) ys) + 2 < F ->
+  exists e, run (S F) (GListBDef lo hi a sep ab) lx c st = (RErr e, st).
+Proof.
+  intros HF Hh0 Hhi Ha Hd Hns HI Hl Hfb Hn. rewrite HF in Hn.
+  assert (Hloop : forall k, exists e, list_loop (run (S (S (S f0)))) (S (S (S f0))) hi ab VDflt
+             (GStabilize (GRecoverWith VDflt (list_rref sep ab) (GUpTo a (sep :: ab))))
+             (GStabilize (GMaybe (GUpTo a (sep :: ab))))
+             (GRecoverWith VUnit (list_rref sep ab) (GDiscard (GOne sep))) c [] lx st k = (RErr e, st)).
+  { intros k. exact (list_loop_first_bad m Htab t Ht a sep ab Ha f0 Hd c Hns VDflt hi k 0 _ Hfb (S (S (S f0))) lx ys st [] HI Hl eq_refl eq_refl Hn). }
+  rewrite <- HF in Hloop. cbn [run].
+  destruct hi as [[|h]|]; [contradiction Hh0; reflexivity| |].
+  - pose proof (Hhi (S h) eq_refl). destruct (Nat.ltb_spec (S h) lo); [lia|]. apply Hloop.
+  - apply Hloop.
+Qed.
+
+Theorem list_bounded_first_bad m (Htab : 1 <= tabw m) t (Ht : wf_text t) a sep ab lo hi f0 F c lx ys st :
+  F = S (S (S f0)) -> hi <> Some 0 -> (forall h, hi = Some h -> lo <= h) ->
+  in_core a = true -> S (gdepth a) < f0 -> has_sink c = false -> Inv m t lx ys -> c_rec lx = None ->
+  first_bad (GSomeOf a) sep ab hi 0 (kept (c_filter lx) ys) -> 2 * length (kept (c_filter lx) ys) + 2 < F ->
+  exists e, run (S F) (GListB lo hi a sep ab) lx c st = (RErr e, st).
+Proof.
+  intros HF Hh0 Hhi Ha Hd Hns HI Hl Hfb Hn. rewrite HF in Hn.
+  assert (Hloop : forall k, exists e, list_loop (run (S (S (S f0)))) (S (S (S f0))) hi ab VNone
+             (GStabilize (GRecoverWith VNone (list_rref sep ab) (GUpTo (GSomeOf a) (sep :: ab))))
+             (GStabilize (GMaybe (GUpTo (GSomeOf a) (sep :: ab))))
+             (GRecoverWith VUnit (list_rref sep ab) (GDiscard (GOne sep))) c [] lx st k = (RErr e, st)).
+  { intros k. exact (list_loop_first_bad m Htab t Ht (GSomeOf a) sep ab Ha f0 Hd c Hns VNone hi k 0 _ Hfb (S (S (S f0))) lx ys st [] HI Hl eq_refl eq_refl Hn). }
+  rewrite <- HF in Hloop. cbn [run].
+  destruct hi as [[|h]|]; [contradiction Hh0; reflexivity| |].
+  - pose proof (Hhi (S h) eq_refl). destruct (Nat.ltb_spec (S h) lo); [lia|]. apply Hloop.
+  - apply Hloop.
+Qed.
